@@ -63,8 +63,8 @@ RecOk(r) == CASE r.fam = "intalu" -> AluOk(r) [] r.fam = "initorder" -> InitOk(r
 Sig(r) == CASE r.fam = "intalu" -> AluSig(r) [] r.fam = "initorder" -> InitSig(r) [] r.fam = "conv" -> ConvSig(r) [] r.fam = "minigo" -> MgSig(r)
 Cause(r) == <<r.fam, Sig(r).cause>>
 
-(* ---- record-walk skeleton (as in spec/lib2/Trace_HTMLEscape.tla).  One difference: the list of bad
-   records written out is capped PER CAUSE (first 60 of each) instead of globally, so that the
+(* ---- record-walk skeleton (as in spec/lib2/Trace_HTMLEscape.tla).  One difference: when more than 400 records are bad, the list
+   written out is capped PER CAUSE (first 60 of each) instead of globally, so that the
    hundreds of records of one known root cause cannot push a different failure out of the list. *)
 VARIABLES l, nbad
 Obs == ndJsonDeserialize("obs.ndjson")
@@ -83,7 +83,7 @@ Done == l = Len(Obs) + 1 =>
              IF nbad = 0 THEN <<>>
              ELSE LET bi == BadIdx(Len(Obs))
                       cs == SetToSeq({Cause(Obs[bi[j]]) : j \in 1..Len(bi)})
-                      sel == BadPick(bi, cs, 1) IN
+                      sel == IF Len(bi) <= 400 THEN bi ELSE BadPick(bi, cs, 1) IN
                   [j \in 1..Len(sel) |-> [k |-> sel[j], id |-> Obs[sel[j]].id, sig |-> Sig(Obs[sel[j]]), nbad |-> nbad]])
 Consumed == TLCGet("stats").diameter - 1 = Len(Obs)
 =============================================================================
